@@ -98,3 +98,15 @@ Theorem C01_raw_placement_refuted :
     forall l1 l2, l = l1 ++ RI x :: l2 -> insert_before_raw l n [7] <> l1 ++ [RI 7] ++ RI x :: l2.
 Proof. exact raw_placement_refuted. Qed.
 Print Assumptions C01_raw_placement_refuted.
+
+(* Seeding side of callback purity: DynamicConstantProvider.add_value / add_value_for_strings /
+   add_concatenated_value (as modelled, and tied by replaying every class pair on the real provider
+   inside Coq) apply operators and methods to exact built-in str/bytes values only, never to an
+   instance of a subclass or any other object. *)
+Theorem C01_provider_touches_builtins_only : forall e a b c, In c (touches e a b) -> user_defined c = false.
+Proof. exact provider_touches_builtins_only. Qed.
+Print Assumptions C01_provider_touches_builtins_only.
+
+Theorem C01_provider_no_user_code : forall e a b, existsb user_defined (touches e a b) = false.
+Proof. exact provider_no_user_code. Qed.
+Print Assumptions C01_provider_no_user_code.
